@@ -332,11 +332,17 @@ def target_cfgs(draw, allow_micro800=True):
         "product_name": draw(st.sampled_from(["2080-LC50-48QWB", "2080-LC30"])) if micro else draw(st.sampled_from(["1756-L83E/B", "1769-L33ER", "5069-L310ER", "X"])),
         "serial": draw(st.integers(0, 0xFFFFFFFF)),
     }
+    bridge = None
+    if not micro and draw(st.integers(0, 3)) == 0:
+        # the controller sits behind a bridge module (its own identity and firmware, typically on the other side of every threshold)
+        bridge = {"major": draw(st.sampled_from([3, 11, 17, 18, 20, 21, 33])), "minor": draw(st.integers(0, 99)),
+                  "product_name": draw(st.sampled_from(["1756-EN2T/D", "1756-ENBT/A", "1756-EN4TR"])), "product_type": 12, "serial": draw(st.integers(0, 0xFFFFFFFF))}
     fo = draw(st.sampled_from(["large", "large", "std"]))
     conn = 4000 if fo == "large" else 500
     cap = draw(st.one_of(st.none(), st.none(), st.integers(16, conn), st.sampled_from([16, 17, 20, 33, 100, 101, 256])))
     return {
         "identity": ident_,
+        "bridge_identity": bridge,
         "session_handle": draw(st.one_of(st.integers(1, 0xFFFFFFFF), st.sampled_from([1, 0xFFFFFFFF, 0x80000000, 0x100]))),
         "conn_ids": [draw(st.one_of(st.integers(1, 0xFFFFFFFF), st.sampled_from([1, 0xFFFFFFFF, 0x01000000, 0, 0])))],   # any 32-bit id, 0 included
         "fo_policy": fo,
